@@ -45,7 +45,7 @@ def run(chk):
             for vid in cg.gvar_refs(f):
                 readers.setdefault(vid, []).append(f)
         for v in F.vars.values():
-            if not v.get("under_root") or v.get("static_member"):
+            if not v.get("under_root"):
                 continue
             cls = classify(v)
             tn = v.get("template") or v["name"]
